@@ -15,16 +15,19 @@ import (
 
 type nullLogger struct{ n int }
 
-func (l *nullLogger) Print(args ...interface{})                 { l.n++ }
-func (l *nullLogger) Printf(format string, args ...interface{}) { l.n++; _ = fmt.Sprintf(format, args...) }
-func (l *nullLogger) Println(args ...interface{})               { l.n++; _ = fmt.Sprintln(args...) }
+func (l *nullLogger) Print(args ...interface{}) { l.n++ }
+func (l *nullLogger) Printf(format string, args ...interface{}) {
+	l.n++
+	_ = fmt.Sprintf(format, args...)
+}
+func (l *nullLogger) Println(args ...interface{}) { l.n++; _ = fmt.Sprintln(args...) }
 
 type c16Rec struct {
-	b        []byte
-	isData   bool
-	unkMsg   int // unknown message number (or -1)
-	unkFlds  []uint32 // (mesg<<8|field) keys for unlisted fields of a known message
-	fails    bool
+	b       []byte
+	isData  bool
+	unkMsg  int      // unknown message number (or -1)
+	unkFlds []uint32 // (mesg<<8|field) keys for unlisted fields of a known message
+	fails   bool
 }
 
 // c16Op returns the records of alphabet symbol k; pos makes payloads distinct.
